@@ -435,5 +435,12 @@ def replay_doc(name):
     return {int(k): int(v) for k, v in _REPLAY_DOC["inputs"].items()}
 
 
+def seed():
+    try:
+        return int(os.environ.get("VERIF_SEED", "0") or 0)
+    except ValueError:
+        return 0
+
+
 def log(*a):
     print(*a, flush=True)
